@@ -98,47 +98,99 @@ func solveVC(vc *VC, o solveOpts) []*Result {
 	if len(obs) > 150 {
 		shards = 4
 	}
-	outs := make([]string, shards)
-	secsS := make([]float64, shards)
-	var swg sync.WaitGroup
-	for k := 0; k < shards; k++ {
-		swg.Add(1)
-		go func(k int) {
-			defer swg.Done()
-			file := tmpFile(shortFuncName(vc.root.String()))
-			os.WriteFile(file, []byte(vc.scriptShard(true, k, shards)), 0o644)
-			outs[k], secsS[k] = runSolver(solvers[0], file, pass1, hard)
-			if !o.keep {
-				os.Remove(file)
-			}
-		}(k)
-	}
-	swg.Wait()
-	out := strings.Join(outs, "\n")
-	secs := 0.0
-	for _, s := range secsS {
-		secs += s
-	}
 	status := map[string]string{}
 	var errLines []string
-	lines := strings.Split(out, "\n")
-	for i := 0; i < len(lines); i++ {
-		l := strings.TrimSpace(lines[i])
-		l = strings.Trim(l, "\"")
-		if l == "@VACUITY" && i+1 < len(lines) && strings.TrimSpace(lines[i+1]) == "unsat" {
-			errLines = append(errLines, "(error \"VACUOUS: the assumptions of this VC are contradictory\")")
+	secs := 0.0
+	// runPass checks the obligations in only (nil: all) with the given solver and records the answers;
+	// weak: only unsat answers count (the pass runs under a sound weakening of the theory)
+	runPass := func(sv solverSpec, perCheck int, only map[string]bool, weak bool) {
+		outs := make([]string, shards)
+		secsS := make([]float64, shards)
+		var swg sync.WaitGroup
+		for k := 0; k < shards; k++ {
+			swg.Add(1)
+			go func(k int) {
+				defer swg.Done()
+				file := tmpFile(shortFuncName(vc.root.String()))
+				os.WriteFile(file, []byte(vc.scriptShardOnly(true, k, shards, only)), 0o644)
+				outs[k], secsS[k] = runSolver(sv, file, perCheck, hard)
+				if !o.keep {
+					os.Remove(file)
+				}
+			}(k)
 		}
-		if strings.HasPrefix(l, "@OB ") {
-			name := l[4:]
-			if i+1 < len(lines) {
-				status[name] = strings.TrimSpace(lines[i+1])
+		swg.Wait()
+		for _, s := range secsS {
+			secs += s
+		}
+		lines := strings.Split(strings.Join(outs, "\n"), "\n")
+		for i := 0; i < len(lines); i++ {
+			l := strings.TrimSpace(lines[i])
+			l = strings.Trim(l, "\"")
+			if l == "@VACUITY" && i+1 < len(lines) && strings.TrimSpace(lines[i+1]) == "unsat" {
+				errLines = append(errLines, "(error \"VACUOUS: the assumptions of this VC are contradictory\")")
+			}
+			if strings.HasPrefix(l, "@OB ") {
+				name := l[4:]
+				if i+1 < len(lines) {
+					st := strings.TrimSpace(lines[i+1])
+					if weak && st != "unsat" {
+						continue
+					}
+					status[name] = st
+				}
+			}
+		}
+		for _, l := range lines {
+			if strings.Contains(l, "(error") {
+				errLines = append(errLines, l)
 			}
 		}
 	}
-	for _, l := range lines {
-		if strings.Contains(l, "(error") {
-			errLines = append(errLines, l)
+	// pass 0: integer/bit-vector conversions uninterpreted (z3 smt.bv.enable_int2bv=false) - a sound
+	// weakening that makes the many obligations that never look inside a conversion cheap
+	if os.Getenv("MQVC_NOPASS0") == "" {
+		runPass(solverSpec{"z3-new/uf", func(f string, ms int) []string {
+			return []string{"z3-new", "smt.bv.enable_int2bv=false", fmt.Sprintf("-t:%d", ms), f}
+		}}, 1000, nil, true)
+	}
+	tPass0 := secs
+	only := map[string]bool{}
+	for _, ob := range obs {
+		if status[ob.Name] != "unsat" {
+			only[ob.Name] = true
 		}
+	}
+	if len(only) > 0 && len(errLines) == 0 {
+		// pass 1: the undecided ones on z3 with its full theory and, in parallel, on cvc5 (which handles the
+		// integer/bit-vector conversions far better); an unsat from either decides
+		saved := status
+		status = map[string]string{}
+		var cvStatus map[string]string
+		var cvErr []string
+		var pw sync.WaitGroup
+		pw.Add(1)
+		go func() {
+			defer pw.Done()
+			cvStatus, cvErr = runPassOn(vc, solvers[2], pass1+2000, only, shards, hard, o)
+		}()
+		runPass(solvers[0], pass1/2, only, false)
+		pw.Wait()
+		for k, v := range saved {
+			if _, ok := status[k]; !ok || v == "unsat" {
+				status[k] = v
+			}
+		}
+		if len(cvErr) == 0 {
+			for k, v := range cvStatus {
+				if v == "unsat" {
+					status[k] = "unsat"
+				}
+			}
+		}
+	}
+	if os.Getenv("MQVC_TIMING") != "" {
+		fmt.Fprintf(os.Stderr, "timing pass0 %.1fs (left %d of %d), pass1 %.1fs cpu\n", tPass0, len(only), len(obs), secs-tPass0)
 	}
 	results := make([]*Result, len(obs))
 	var pending []int
@@ -195,16 +247,23 @@ func solveVC(vc *VC, o solveOpts) []*Result {
 func raceOne(vc *VC, r *Result, o solveOpts) {
 	file := tmpFile("ob-" + r.Ob.Name)
 	os.WriteFile(file, []byte(vc.standalone(r.Ob, false, nil)), 0o644) // full hypotheses
-	defer os.Remove(file)
+	if os.Getenv("MQVC_KEEP") == "" {
+		defer os.Remove(file)
+	}
 	type ans struct {
 		solver string
 		status string
 		secs   float64
 		out    string
 	}
-	ch := make(chan ans, len(solvers))
+	// the same obligation without the quantified hypotheses (their instances stay): an unsat there is
+	// just as good, and the other two solvers are often much faster on it than on the full query
+	fileQF := tmpFile("obqf-" + r.Ob.Name)
+	os.WriteFile(fileQF, []byte(vc.standalone(r.Ob, true, nil)), 0o644)
+	defer os.Remove(fileQF)
+	ch := make(chan ans, 2*len(solvers)+2)
 	r.Status, r.Solver = "unknown", "all"
-	ms := 3 * o.timeoutMs // generous: only obligations the first pass could not decide get here
+	ms := 5 * o.timeoutMs // generous: only obligations the first pass could not decide get here
 	ctx, cancel := context.WithCancel(context.Background())
 	defer cancel()
 	for _, s := range solvers {
@@ -224,7 +283,20 @@ func raceOne(vc *VC, r *Result, o solveOpts) {
 			ch <- ans{s.name, first, secs, out}
 		}(s)
 	}
-	for range solvers {
+	for _, s := range solvers {
+		go func(s solverSpec) {
+			out, secs := runSolverCtx(ctx, s, fileQF, ms, time.Duration(ms+5000)*time.Millisecond)
+			first := "unknown"
+			for _, l := range strings.Split(out, "\n") {
+				if strings.TrimSpace(l) == "unsat" {
+					first = "unsat"
+					break
+				}
+			}
+			ch <- ans{s.name + "/qf", first, secs, ""}
+		}(s)
+	}
+	for i := 0; i < 2*len(solvers); i++ {
 		a := <-ch
 		if a.status == "unsat" {
 			r.Status, r.Solver, r.Secs = "unsat", a.solver, a.secs
@@ -244,4 +316,37 @@ func raceOne(vc *VC, r *Result, o solveOpts) {
 			}
 		}
 	}
+}
+
+// runPassOn runs the sharded incremental script for the obligations in only on one solver and
+// returns the per-obligation answers (used for the second engine of pass 1).
+func runPassOn(vc *VC, sv solverSpec, perCheck int, only map[string]bool, shards int, hard time.Duration, o solveOpts) (map[string]string, []string) {
+	status := map[string]string{}
+	var errLines []string
+	outs := make([]string, shards)
+	var swg sync.WaitGroup
+	for k := 0; k < shards; k++ {
+		swg.Add(1)
+		go func(k int) {
+			defer swg.Done()
+			file := tmpFile(shortFuncName(vc.root.String()) + "-" + sv.name)
+			os.WriteFile(file, []byte(vc.scriptShardOnly(true, k, shards, only)), 0o644)
+			outs[k], _ = runSolver(sv, file, perCheck, hard)
+			if !o.keep {
+				os.Remove(file)
+			}
+		}(k)
+	}
+	swg.Wait()
+	lines := strings.Split(strings.Join(outs, "\n"), "\n")
+	for i := 0; i < len(lines); i++ {
+		l := strings.Trim(strings.TrimSpace(lines[i]), "\"")
+		if strings.HasPrefix(l, "@OB ") && i+1 < len(lines) {
+			status[l[4:]] = strings.TrimSpace(lines[i+1])
+		}
+		if strings.Contains(l, "(error") {
+			errLines = append(errLines, l)
+		}
+	}
+	return status, errLines
 }
